@@ -11,6 +11,17 @@ def main():
         return 0
     pid, tier = sys.argv[1], (sys.argv[2] if len(sys.argv) > 2 else os.environ.get("VERIF_TIER", "quick"))
     chk = report.Check(pid, tier)
+    # wall-clock watchdog: a wrong formula can send the algebra into minutes of fruitless simplification; fail closed instead
+    import signal
+    budget = int(os.environ.get("VERIF_TIME_BUDGET", "900" if tier == "quick" else "5400"))
+
+    class TimeBudget(Exception):
+        pass
+
+    def on_alarm(sig, frm):
+        raise TimeBudget()
+    signal.signal(signal.SIGALRM, on_alarm)
+    signal.alarm(budget)
     try:
         mod = importlib.import_module("rules." + pid)
         expl = mod.run(chk) or ""
@@ -20,9 +31,13 @@ def main():
     except program.BuildError as e:
         chk.violation("build-failed", "build", "a configuration required by this check no longer builds", stderr=str(e)[-3000:])
         expl = "aborted: build failed"
+    except TimeBudget:
+        chk.violation("analysis-incomplete", "time-budget", "the analysis did not finish within %d s (the unchanged tree needs a small fraction of that): fail closed" % budget)
+        expl = "aborted: time budget"
     except Exception as e:
         chk.violation("analysis-crashed", type(e).__name__, "analysis crashed (fail closed): %s" % e, tb=traceback.format_exc()[-3000:])
         expl = "aborted: analysis crashed"
+    signal.alarm(0)
     return chk.finish(expl)
 
 
